@@ -73,6 +73,13 @@ static size_t m_read(void *dst, uint32_t a0, size_t n)
         memcpy(dst, medium + a, n - 1);
         return n - 1;
     }
+    if (arm.kind == 5 && (calls == arm.k || calls == arm.k + 1)) {
+        /* two faults that cancel out in a sum of counts: read k is one octet short, read k + 1 reports one octet too many */
+        struck = 1;
+        if (calls == arm.k) { if (n == 0) return 0; memcpy(dst, medium + a, n - 1); return n - 1; }
+        memcpy(dst, medium + a, n);
+        return n + 1;
+    }
     memcpy(dst, medium + a, n);
     return n;
 }
